@@ -1023,6 +1023,7 @@ func gatherSecuritySchemes(securitySchemes map[string]spec.SecurityScheme, appNa
 				genScopes = append(genScopes, GenSecurityScope{Name: k, Description: v})
 			}
 			sort.Strings(scopes)
+			sort.Slice(genScopes, func(i, j int) bool { return genScopes[i].Name < genScopes[j].Name })
 		}
 
 		security = append(security, GenSecurityScheme{
